@@ -21,6 +21,7 @@
  *   refprod32 / refprod64 <ss> <ll> <nn> <c> <reps>             the product through the reference automaton
  *   sweep32 <lo> <hi> <c>         -> sweep32 n= acc= mism= first= digest=   every word in [lo,hi) from the initial
  *                                    state: real code against the reference automaton (harness only)
+ *   sweep64 <reps> <lo> <hi> <c>  -> sweep64 ...  tuples lo..hi-1 of reps^8 as 64-bit words, likewise (harness only)
  */
 #include <stdbool.h>
 #include <stdint.h>
@@ -226,6 +227,45 @@ static void do_sweep32(void)
 		    (unsigned long long) acc, (unsigned long long) fnv);
 }
 
+/* sweep64 <reps> <lo> <hi> <c>: tuples number lo..hi-1 of reps^8 (byte 0 fastest) as one 64-bit word from
+ * the initial state: real code against the reference automaton (harness only) */
+static void do_sweep64(void)
+{
+	if (ntok < 5) { printf("error args\n"); return; }
+	uint8_t *reps;
+	long k = parse_hex(tok[1], &reps);
+	if (k <= 0) { printf("error reps\n"); free(reps); return; }
+	uint64_t lo = strtoull(tok[2], NULL, 16), hi = strtoull(tok[3], NULL, 16);
+	bool complete = atoi(tok[4]) != 0;
+	uint64_t acc = 0, mism = 0, first = 0;
+	int idx[8];
+	uint64_t t0 = lo;
+	for (int j = 0; j < 8; j++) { idx[j] = (int) (t0 % (uint64_t) k); t0 /= (uint64_t) k; }
+	fnv_init();
+	for (uint64_t t = lo; t < hi; t++) {
+		uint8_t bytes[8];
+		uint64_t w = 0;
+		for (int j = 0; j < 8; j++) { bytes[j] = reps[idx[j]]; w |= ((uint64_t) bytes[j]) << (8 * j); }
+		bool r = real_word(8, w, 0xFF, 1, 1, complete);
+		struct ref rf = {0, 0};
+		bool rr = ref_run(&rf, bytes, 8, complete);
+		uint8_t st[3];
+		ref_as_checker(&rf, st);
+		if (r) acc++;
+		if (r != rr || st[0] != chk.start_byte || st[1] != chk.length || st[2] != chk.next_byte) {
+			if (mism == 0) first = w;
+			mism++;
+		}
+		fnv_byte(r ? 1 : 0); fnv_byte(chk.start_byte); fnv_byte(chk.length); fnv_byte(chk.next_byte);
+		for (int j = 0; j < 8; j++) { if (++idx[j] < k) break; idx[j] = 0; }
+	}
+	if (mism) printf("sweep64 n=%llu acc=%llu mism=%llu first=%016llx digest=%016llx\n", (unsigned long long) (hi - lo),
+		         (unsigned long long) acc, (unsigned long long) mism, (unsigned long long) first, (unsigned long long) fnv);
+	else printf("sweep64 n=%llu acc=%llu mism=0 first=- digest=%016llx\n", (unsigned long long) (hi - lo),
+		    (unsigned long long) acc, (unsigned long long) fnv);
+	free(reps);
+}
+
 int main(void)
 {
 	static char line[1 << 20];
@@ -304,6 +344,7 @@ int main(void)
 		} else if (strcmp(op, "refprod32") == 0) { do_prod(4, false, true);
 		} else if (strcmp(op, "refprod64") == 0) { do_prod(8, false, true);
 		} else if (strcmp(op, "sweep32") == 0) { do_sweep32(); cjet_init_checker(&chk);
+		} else if (strcmp(op, "sweep64") == 0) { do_sweep64(); cjet_init_checker(&chk);
 		} else if (strcmp(op, "spec") == 0 && ntok >= 2) {
 			uint8_t *raw;
 			long n = parse_hex(tok[1], &raw);
